@@ -296,9 +296,9 @@ Section Sized.
         apply process_broadcast_spec in E. destruct E as [E1 E2].
         intros H; inversion H; subst. split; [eapply IA_sc; [exact E1|exact HI]|apply no_tx_sobs_ok; exact E2].
       + intros H; inversion H; subst. split; [|constructor].
-        destruct (s_last_bcast s) as [[]|]; exact HI.
+        eapply IA_sc; [apply sc_bcast_confirmed|exact HI].
       + destruct (q =? ctl_seq (r_ctl resp)); intros H; inversion H; subst.
-        * split; [exact HI|repeat constructor].
+        * split; [eapply IA_sc; [apply sc_bcast_confirmed|exact HI]|repeat constructor].
         * split; [exact HI|constructor].
   Qed.
 
@@ -2602,8 +2602,10 @@ Section Retransmission.
         * inversion H; subst. apply Hrec; [exact Hd1|]. intros r2 Hr2. discriminate.
       + inversion H; subst. cbn. split; [exact K1|discriminate].
       + destruct Hcl.
-      + inversion H; subst. destruct (s_last_bcast s) as [[]|]; auto.
+      + inversion H; subst.
+        destruct (sc_bcast_confirmed s false q) as (_ & _ & B3 & _ & _ & B6 & _). rewrite B3, B6. auto.
       + destruct (q =? ctl_seq (r_ctl resp)); inversion H; subst; auto.
+        destruct (sc_bcast_confirmed s true q) as (_ & _ & B3 & _ & _ & B6 & _). rewrite B3, B6. auto.
   Qed.
 
   Lemma handle_deferred_K s ns s' o :
